@@ -137,7 +137,7 @@ class Machine:
         if isinstance(a, m.CustomFinishAction):
             return ("return", "FINISH_" + a.result_code)
         if isinstance(a, m.FinishAction):
-            return ("return", "DONE")
+            return ("return", "DONE", "latch")      # a finish statement: the machine stays finished (state index = number of states)
         if isinstance(a, m.CustomYieldAction):
             return ("return", "YIELD_" + a.result_code)
         if isinstance(a, m.SetTo):
@@ -244,7 +244,10 @@ class Machine:
                     continue
                 if r[0] == "return":
                     # the machine is now at the transition's target; the symbol counts as consumed unless the transition falls through
-                    return self.result(r[1], nxt if nxt in self.idx else s, st, (not t.is_fallthrough) and not is_end)
+                    res = self.result(r[1], nxt if nxt in self.idx else s, st, (not t.is_fallthrough) and not is_end)
+                    if len(r) > 2:
+                        res["state"] = len(self.states)
+                    return res
                 if r[0] == "redirect":
                     s = r[1]
                     skip = "redirect"
